@@ -51,6 +51,9 @@ def unit_overlap(ctx, dtype):
         if q.kind != "return":
             ctx.oblige(f"{nm}/no-exception({q.exc.name()})#p{pi}", q.pc, z3.BoolVal(False), func=fn, replay="c09.overlap", info=info)
             continue
+        ctx.oblige(f"{nm}/frame(the two input arrays are not written)#p{pi}", q.pc,
+                   z3.And(z3.BoolVal(not any(ev[0] == "arr-write" and ev[2] == "caller" for ev in q.events)), Rr.term == Rr.base(sp.x), P.term == P.base(sp.x)),
+                   func=fn, replay="c09.overlap_frame", info=dict(info, structural=True))
         F = q.value
         if not (isinstance(F, SymSeq) and hasattr(F, "src") and hasattr(F.base, "unique_of")):
             raise Unsupported("result is not a filtered comprehension over np.unique(...)")
@@ -238,6 +241,10 @@ def unit_map_labels(ctx, dtype):
                    func=fn, replay="c09.maplabels", info=info)
         ctx.oblige(f"{nm}/post(fresh buffer, input not written)#p{pi}", [],
                    z3.BoolVal(out.buf != A.buf and not any(ev[0] == "arr-write" and ev[2] == "caller" for ev in p.events)), func=fn)
+        # the relabelled array is never narrower than the input (callers align the reference map to its dtype, which must be a widening)
+        ri, ro = dtype_range(dtype), dtype_range(out.dtype_name)
+        ctx.oblige(f"{nm}/post(result dtype {out.dtype_name} holds every value of the input dtype {dtype})#p{pi}", p.pc,
+                   z3.BoolVal(bool(ro is not None and ri is not None and ro[0] <= ri[0] and ri[1] <= ro[1])), func=fn, replay="c09.maplabels", info=dict(info, structural=True))
         ctx.canary(f"{nm}#p{pi}", p.pc, func=fn)
 
 
@@ -298,7 +305,7 @@ def build(ctx):
 
 
 def concretise(ctx, o, r):
-    if o.replay == "c09.overlap_layout":
+    if o.replay in ("c09.overlap_layout", "c09.overlap_frame"):
         return {"dtype": o.info.get("dtype", "uint8")}
     ev = r.get("evals") or {}
     m = r.get("model") or {}
